@@ -29,10 +29,11 @@ type c07Case struct {
 	Chunking string `json:"chunking"` // one, bytes, three, split
 	Kind     string `json:"kind"`     // writes, entity, 404, 405, panic-pre, panic-mid, panic-custom
 	Provider string `json:"provider"`
+	Late     bool   `json:"switch_set_after_registration,omitempty"` // the container holds the opposite setting while services and handlers are registered
 }
 
 func (c c07Case) String() string {
-	return fmt.Sprintf("entry=%s switch=%v override=%s AE=%q preCE=%q nested=%v payload=%s/%s kind=%s provider=%s", c.Entry, c.Switch, c.Override, c.AE, c.PreCE, c.Nested, c.Payload, c.Chunking, c.Kind, c.Provider)
+	return fmt.Sprintf("entry=%s switch=%v override=%s AE=%q preCE=%q nested=%v payload=%s/%s kind=%s provider=%s late=%v", c.Entry, c.Switch, c.Override, c.AE, c.PreCE, c.Nested, c.Payload, c.Chunking, c.Kind, c.Provider, c.Late)
 }
 
 func c07Payload(kind string) []byte {
@@ -81,7 +82,7 @@ func c07Run(cs c07Case, plain bool) (*h.Rec, *ledger, interface{}) {
 	led := newLedger(newProvider(cs.Provider))
 	restful.SetCompressorProvider(led)
 	c := restful.NewContainer()
-	c.EnableContentEncoding(cs.Switch)
+	c.EnableContentEncoding(cs.Switch != cs.Late)
 	payload := c07Payload(cs.Payload)
 	if strings.HasPrefix(cs.Kind, "panic") {
 		c.DoNotRecover(false)
@@ -126,6 +127,9 @@ func c07Run(cs c07Case, plain bool) (*h.Rec, *ledger, interface{}) {
 		c.HandleWithFilter("/plain/", plainH)
 	} else if strings.HasPrefix(cs.Entry, "Handle") {
 		c.Handle("/plain/", plainH)
+	}
+	if cs.Late {
+		c.EnableContentEncoding(cs.Switch)
 	}
 	q := h.Req{Method: "GET", Segs: []string{"w", "r"}}
 	switch {
@@ -337,7 +341,7 @@ func c07Cases(tier string) []c07Case {
 									if pre != "" && nested {
 										continue
 									}
-									out = append(out, c07Case{e, sw, ov, ae, pre, nested, "hello", "one", k, pr})
+									out = append(out, c07Case{e, sw, ov, ae, pre, nested, "hello", "one", k, pr, false})
 								}
 							}
 						}
@@ -368,9 +372,24 @@ func c07Cases(tier string) []c07Case {
 									if k != "writes" && !(e == "ServeHTTP" || e == "Dispatch") {
 										continue
 									}
-									out = append(out, c07Case{e, sw, ov, ae, "", false, pl, ch, k, pr})
+									out = append(out, c07Case{e, sw, ov, ae, "", false, pl, ch, k, pr, false})
 								}
 							}
+						}
+					}
+				}
+			}
+		}
+	}
+	// (C) configuration order: the container switch is set to its final value only after all
+	// services and handlers have been registered (it holds the opposite value until then)
+	for _, e := range c07Entries {
+		for _, sw := range []bool{false, true} {
+			for _, ov := range overridesFor(e) {
+				for _, ae := range []string{"-", "gzip", "deflate", "identity"} {
+					for _, k := range kindsFor(e) {
+						for _, pr := range providers {
+							out = append(out, c07Case{e, sw, ov, ae, "", false, "hello", "one", k, pr, true})
 						}
 					}
 				}
@@ -413,6 +432,6 @@ func checkC07(run *h.Run) {
 	run.Cov["distinct_nontrivial"] = nontriv
 	run.Cov["distinct_outcomes"] = outcomes.Len()
 	run.Cov["exhaustive"] = true
-	run.Cov["rule"] = "E1 with a fault/outcome-kind dimension: (A) 'Hello World' in one write x the full product entry point {ServeHTTP, Dispatch, Handle and HandleWithFilter each through the mux and through ServeHTTP} x container switch x route override {unset,true,false} x 9 Accept-Encoding values x writer arriving with Content-Encoding {none,gzip,br} x writer arriving already compressing x outcome kind {handler writes, WriteEntity, 404, 405, recovered panic before output / after partial output, custom recover handler} x provider {sync.Pool, bounded(0), bounded(1)} (quick: the pre-encoded/nested dimensions on bounded(1) only); (B) payload {empty, 1 B, Hello World, 70 kB pattern, 1 kB zeros} x chunking {one write, byte-wise, three chunks, split across filter-before/handler/filter-after} on every entry point, switch, override and provider. Each case runs on the real package next to an identity twin (no Accept-Encoding); every clause of the statement is evaluated, the ledger provider checks acquire/release. Non-trivial: an Accept-Encoding header is present."
+	run.Cov["rule"] = "E1 with a fault/outcome-kind dimension: (A) 'Hello World' in one write x the full product entry point {ServeHTTP, Dispatch, Handle and HandleWithFilter each through the mux and through ServeHTTP} x container switch x route override {unset,true,false} x 9 Accept-Encoding values x writer arriving with Content-Encoding {none,gzip,br} x writer arriving already compressing x outcome kind {handler writes, WriteEntity, 404, 405, recovered panic before output / after partial output, custom recover handler} x provider {sync.Pool, bounded(0), bounded(1)} (quick: the pre-encoded/nested dimensions on bounded(1) only); (B) payload {empty, 1 B, Hello World, 70 kB pattern, 1 kB zeros} x chunking {one write, byte-wise, three chunks, split across filter-before/handler/filter-after} on every entry point, switch, override and provider; (C) configuration order: the container switch receives its final value only after registration (opposite value until then) x entry point x switch x override x 4 Accept-Encoding values x outcome kind x provider. Each case runs on the real package next to an identity twin (no Accept-Encoding); every clause of the statement is evaluated, the ledger provider checks acquire/release. Non-trivial: an Accept-Encoding header is present."
 	run.Assume = []string{"the bytes written are taken from the identity twin (differential); default recover handler output compared up to the first line (stack frames differ)", "compress/gzip and compress/zlib decoders trusted"}
 }
